@@ -113,6 +113,15 @@ func enabled(store sk.Kind, tier string, s mstate) []string {
 	for _, p := range ps {
 		en = append(en, fmt.Sprintf("r:%d", p))
 	}
+	if s.Halted {
+		// the same reorgs, each preceded by failed attempts: a storage fault at every row write of the reorg's
+		// transaction (a failed reorg removes nothing, so it must not clear the halt)
+		for _, p := range ps {
+			if p <= s.tip() {
+				en = append(en, fmt.Sprintf("f:%d", p))
+			}
+		}
+	}
 	return en
 }
 
@@ -134,7 +143,7 @@ func parseEvent(ev string) (event, error) {
 		if strings.HasSuffix(e.Kind, "@2") {
 			e.Far, e.Kind = true, strings.TrimSuffix(e.Kind, "@2")
 		}
-	case 'r':
+	case 'r', 'f':
 		n, err := strconv.ParseUint(e.Kind, 10, 64)
 		if err != nil {
 			return event{}, fmt.Errorf("bad event %q", ev)
@@ -162,7 +171,7 @@ func apply(s mstate, e event) (t mstate, removed int) {
 				t.Refused++
 			}
 		}
-	case 'r':
+	case 'r', 'f':
 		if e.At <= s.tip() {
 			removed = int(s.tip() - e.At + 1)
 			t.Kinds = t.Kinds[:e.At-1]
@@ -303,6 +312,7 @@ func execute(c *mc.Ctx, tier string, store sk.Kind, history []string, fullOracle
 	// frontier: the number of leaves the store's IN-MEMORY append frontier stands at, followed only to
 	// NAME one known defect precisely (a reorg does not reset it); -1: not initialised / rebuilt from the database.
 	frontier := -1
+	faultsInstalled := false
 	for i, ev := range history {
 		e, perr := parseEvent(ev)
 		if perr != nil {
@@ -382,8 +392,44 @@ func execute(c *mc.Ctx, tier string, store sk.Kind, history []string, fullOracle
 			if m.Halted {
 				cause = "after-block-offered-to-halted-store"
 			}
-		case 'r':
-			err := n.Reorg(e.At)
+		case 'r', 'f':
+			var err error
+			if e.Op == 'f' {
+				// failed attempts first: a storage fault at row write 1, 2, ... of the reorg's transaction, until the
+				// armed position lies beyond its last write and the reorg goes through un-faulted
+				if !faultsInstalled {
+					n.InstallFaultTriggers()
+					faultsInstalled = true
+				}
+				done := false
+				for k := 1; k <= 400 && !done; k++ {
+					n.Arm(k)
+					ferr := n.Reorg(e.At)
+					n.Arm(-1)
+					if ferr == nil {
+						done = true
+						break
+					}
+					c.Witness("failed_reorg_attempts_while_halted")
+					c.Obs("#%d %s: reorg attempt with a fault at write %d -> %v", i, ev, k, ferr)
+					lpbNow, lerr := n.W.GetLastProcessedBlock(nil)
+					if lerr != nil || lpbNow != chain.Tip() {
+						c.Failf(S+"/Reorg/failed-reorg-removed-blocks", "history %v: Reorg(%d) failed (fault at write %d: %v) but the last processed block is %d (err %v), was %d",
+							history[:i+1], e.At, k, ferr, lpbNow, lerr, chain.Tip())
+						return "failed", nil, nil
+					}
+					if m.Halted && !n.Halted() {
+						c.Failf(S+"/Reorg/failed-reorg-clears-halt", "history %v: Reorg(%d) FAILED (storage fault at row write %d of its transaction: %v) and removed nothing, "+
+							"but the store is no longer halted (it halted on block %d, %s)", history[:i+1], e.At, k, ferr, m.Refused, m.GapKind)
+						return "failed", nil, nil
+					}
+				}
+				if !done {
+					return "", nil, &herr{"reorg fault loop did not end"}
+				}
+			} else {
+				err = n.Reorg(e.At)
+			}
 			c.Obs("#%d %s: reorg -> %v (reference: removes %d blocks)", i, ev, err, removed)
 			if err != nil {
 				c.Failf(S+"/Reorg/error", "history %v: Reorg(%d) failed: %v", history[:i+1], e.At, err)
@@ -718,7 +764,7 @@ func main() {
 		Replay:             replay,
 		Setup:              func(string) { kit.Quiet() },
 		Rule: "E-BFS over the event alphabet {good block of each kind, inconsistent block of each kind (also one block number further), " +
-			"Reorg(b) for b in {1, middle, tip, tip+1, refused block}}. The reference state graph (stored good blocks, halted flag + halting block, " +
+			"Reorg(b) for b in {1, middle, tip, tip+1, refused block}, and while halted FaultedReorg(b) = the same reorg preceded by one failed attempt per row write of its transaction (storage fault at write 1, 2, ... K; every failed attempt must leave the blocks and the halt in place)}. The reference state graph (stored good blocks, halted flag + halting block, " +
 			"a-reorg-removed-blocks-before flag) is computed first; unit = one reference state of depth < D reached on fresh real objects by its shortest history; " +
 			"the unit executes every enabled event from it (the union of units = the transitions of a global BFS with state merging). " +
 			"evaluations = executions + facade invocations made by the reflective oracle (every method x every argument tuple, in the state each execution ends in); states are counted per unit (root + successors), the number of distinct reference states is in bounds.reference_graph; " +
